@@ -9,10 +9,15 @@ ASSUME = ["binary levels and left-associativity are taken from the statement; th
           "postfix operators except dereference, `^` also stops before a cast) is taken from the grammar's own comments"]
 
 
+# the same print/parse/read-back oracle interpreted by Miri (parser sink + ast accessors over the syntax tree)
+MIRI = {"quick": ["--stride2", "4000", "--stride3", "400", "--random", "800"],
+        "thorough": ["--stride2", "200", "--stride3", "20", "--random", "12000"], "shards": 16}
+
+
 def run(tier, seed):
     extra = ["--stride2", "1", "--stride3", "1" if tier == "thorough" else "4"]
     return run_probe_check("C24", tier, seed, RULE, ASSUME, corpus=True, shards=16 if tier == "thorough" else 8, extra=extra,
-                           min_evals=100000)
+                           min_evals=100000, miri=MIRI)
 
 
 def replay(path):
